@@ -13,8 +13,8 @@ import (
 )
 
 func init() {
-	modes["C09"] = func(res *lp.Result) { runInflight(res, "C09"); runInflightConcurrent(res); runInflightConnection(res) }
-	modes["C10"] = func(res *lp.Result) { runInflight(res, "C10"); runRoutingConnection(res); runRoutingRawPeer(res) }
+	modes["C09"] = func(res *lp.Result) { runInflight(res, "C09"); runInflightConcurrent(res); runInflightSendVsDeliver(res); runInflightConnection(res); runInflightExplicitConnection(res) }
+	modes["C10"] = func(res *lp.Result) { runInflight(res, "C10"); runRoutingConnection(res); runRoutingEventFlood(res); runRoutingRawPeer(res) }
 }
 
 type infOp struct {
